@@ -5,7 +5,8 @@
    reals + one absorbing NaN); only the standard-library Reals axioms.                                   *)
 From Coq Require Import ZArith List Reals.
 From Tevec Require Import Base.Prelude Base.Num Base.XR Model.Driver Proofs.Driver Model.Cmp Spec.Extrema
-     Proofs.IdxRun Proofs.Cmp Proofs.RollRank Spec.Stats Model.Features Model.Norm Proofs.Norm Proofs.MinMax.
+     Proofs.IdxRun Proofs.Cmp Proofs.RollRank Spec.Stats Model.Features Model.Norm Proofs.Norm Proofs.MinMax
+     Spec.ExtremaOrd Proofs.CmpOrd Proofs.RollRankOrd Proofs.CmpOrdInst.
 Import ListNotations.
 
 (* the comparisons of isnone.rs at the integer carrier are the null-last order *)
@@ -200,6 +201,329 @@ Example C03_example_minmaxnorm_premise :
   forall r, In (Some r) [Some 1%R; None; Some 3%R] -> (0 <= r <= 4)%R.
 Proof. intros r [H|[H|[H|[]]]]; try discriminate; injection H as <-; split; Lra.lra. Qed.
 
+(* ==== (7) EVERY ordered carrier, not only integers ====================================================
+   The extrema / arg-extrema / cache-invariant / rank theorems above only use that Z is totally ordered.
+   Below they are stated for ANY carrier A (Num A) whose comparisons satisfy the record
+   Spec/ExtremaOrd.OrdLaws on the non-NaN elements (nltb asymmetric and co-transitive = a strict weak order,
+   neqb its equivalence, nleb the complement of the converse), ANY null dictionary IsNone T A, and any series
+   whose valid elements are not NaN (valid_not_nan: automatic for integers and for the float-like dictionary
+   where NaN is the null; for Option<f64> it excludes Some(NaN), DESIGN 5.4).  The specification uses the
+   carrier's own comparisons: gmin / gmax = ext_last nltb / ngtb (the LAST among equivalent extremes — this
+   matters only when neqb is coarser than Leibniz equality, e.g. +0 / -0), glast_pos, gargmin_spec, gcount_lt/eq.
+   The laws are proved for Z and for option R (hence the theorems are non-vacuous twice) and, from the standard
+   library's FloatAxioms, for binary64 (Proofs/CmpOrdFloat.v; not counted here, see notes/C03.md).          *)
+
+(* the laws hold for the integer carrier and for the exact reals with one NaN; there neqb is Leibniz equality *)
+Theorem C03_order_laws_Z : OrdLaws Z /\ OrdStrict Z.
+Proof. exact (conj ordlaws_Z ordstrict_Z). Qed.
+Theorem C03_order_laws_real : OrdLaws XR /\ OrdStrict XR.
+Proof. exact (conj ordlaws_XR ordstrict_XR). Qed.
+
+(* isnone.rs sort_cmp / sort_cmp_rev are the null-last orders of the carrier's `<` and of its converse *)
+Theorem C03_sort_cmp_nulls_last_ordered :
+  forall (A : Type) (NA : Num A), OrdLaws A ->
+  forall a b : option A, okv a -> okv b ->
+    sort_cmp a b = gocmp nltb a b /\ sort_cmp_rev a b = gocmp ngtb a b.
+Proof. intros A NA OL a b Ha Hb. split; [apply sort_cmp_ord|apply sort_cmp_rev_ord]; assumption. Qed.
+
+Theorem C03_ts_vmin_ordered :
+  forall (A : Type) (NA : Num A), OrdLaws A ->
+  forall (T : Type) (DT : IsNone T A) (body : bool) (w : nat) (mp : option nat) (xs : list T),
+    valid_not_nan xs -> 1 <= w -> 1 <= length xs ->
+    exists out, ts_vmin body w mp xs = Done out /\ length out = length xs /\
+      forall i, i < length xs ->
+        nth_error out i =
+        Some (let V := gvalid (win w i (map to_opt xs)) in
+              if cmp_mp mp (cmp_window w xs) <=? length V then gmin V else None).
+Proof. intros A NA OL T DT. exact (ts_vmin_ord OL). Qed.
+
+Theorem C03_ts_vmax_ordered :
+  forall (A : Type) (NA : Num A), OrdLaws A ->
+  forall (T : Type) (DT : IsNone T A) (body : bool) (w : nat) (mp : option nat) (xs : list T),
+    valid_not_nan xs -> 1 <= w -> 1 <= length xs ->
+    exists out, ts_vmax body w mp xs = Done out /\ length out = length xs /\
+      forall i, i < length xs ->
+        nth_error out i =
+        Some (let V := gvalid (win w i (map to_opt xs)) in
+              if cmp_mp mp (cmp_window w xs) <=? length V then gmax V else None).
+Proof. intros A NA OL T DT. exact (ts_vmax_ord OL). Qed.
+
+Theorem C03_ts_vargmin_ordered :
+  forall (A : Type) (NA : Num A), OrdLaws A ->
+  forall (T : Type) (DT : IsNone T A) (body : bool) (w : nat) (mp : option nat) (xs : list T),
+    valid_not_nan xs -> 1 <= w -> 1 <= length xs ->
+    exists out, ts_vargmin body w mp xs = Done out /\ length out = length xs /\
+      forall i, i < length xs ->
+        nth_error out i =
+        Some (let W := win w i (map to_opt xs) in
+              if cmp_mp mp (cmp_window w xs) <=? length (gvalid W) then gargmin_spec W else None).
+Proof. intros A NA OL T DT. exact (ts_vargmin_ord OL). Qed.
+
+Theorem C03_ts_vargmax_ordered :
+  forall (A : Type) (NA : Num A), OrdLaws A ->
+  forall (T : Type) (DT : IsNone T A) (body : bool) (w : nat) (mp : option nat) (xs : list T),
+    valid_not_nan xs -> 1 <= w -> 1 <= length xs ->
+    exists out, ts_vargmax body w mp xs = Done out /\ length out = length xs /\
+      forall i, i < length xs ->
+        nth_error out i =
+        Some (let W := win w i (map to_opt xs) in
+              if cmp_mp mp (cmp_window w xs) <=? length (gvalid W) then gargmax_spec W else None).
+Proof. intros A NA OL T DT. exact (ts_vargmax_ord OL). Qed.
+
+(* what gmin / gmax mean: an element of the list that no element beats (ltb = nltb: minimum, ngtb: maximum);
+   when neqb is Leibniz equality (Z, option R) this determines it *)
+Theorem C03_extreme_meaning :
+  forall (A : Type) (NA : Num A), OrdLaws A ->
+  forall (l : list A), Forall num_ok l ->
+    (forall m, gmin l = Some m -> In m l /\ forall a, In a l -> nltb a m = false) /\
+    (forall m, gmax l = Some m -> In m l /\ forall a, In a l -> nltb m a = false) /\
+    (OrdStrict A -> forall m, In m l ->
+       ((forall a, In a l -> nltb a m = false) -> gmin l = Some m) /\
+       ((forall a, In a l -> nltb m a = false) -> gmax l = Some m)).
+Proof.
+  intros A NA OL l Hl. split; [|split].
+  - intros m. apply (ext_last_sound nltb (dir_lt OL) l Hl).
+  - intros m. apply (ext_last_sound ngtb (dir_gt OL) l Hl).
+  - intros HS m Hm. split; intros H.
+    + apply (ext_last_spec nltb (dir_lt OL) l m HS Hl Hm H).
+    + apply (ext_last_spec ngtb (dir_gt OL) l m HS Hl Hm H).
+Qed.
+
+(* what gargmin_spec means: the window position it names holds the extreme, and it is the last such *)
+Theorem C03_gargmin_spec_meaning :
+  forall (A : Type) (NA : Num A) (W : list (option A)) (o : nat),
+    gargmin_spec W = Some o ->
+    exists m, gmin (gvalid W) = Some m /\ 1 <= o /\ glast_pos m W = Some (o - 1).
+Proof.
+  intros A NA W o H. unfold gargmin_spec in H. destruct (gmin (gvalid W)) as [m|]; [|discriminate].
+  exists m. split; [reflexivity|]. destruct (glast_pos m W) as [j|]; [|discriminate].
+  cbn in H. injection H as <-. split; [apply le_n_S, Nat.le_0_l|]. cbn. rewrite Nat.sub_0_r. reflexivity.
+Qed.
+
+(* the cached-extreme invariant for any direction ltb of any ordered carrier (minima: nltb with sort_cmp,
+   maxima: ngtb with sort_cmp_rev) ... *)
+Theorem C03_cached_extreme_invariant_ordered :
+  forall (A : Type) (NA : Num A) (T : Type) (DT : IsNone T A) (ltb : A -> A -> bool), DirLaws ltb ->
+  forall scmp : option A -> option A -> comparison,
+    (forall a b, okv a -> okv b -> scmp a b = gocmp ltb a b) ->
+    forall (w : nat) (mp : option nat) (xs : list T) (k : nat),
+      (forall v, In v xs -> okv (to_opt v)) ->
+      1 <= w -> 1 <= length xs -> k <= length xs ->
+      let wd := cmp_window w xs in
+      exists s,
+        state_after (lift_cb (vext_cb scmp (cmp_mp mp wd) xs)) (Ok ext0)
+                    (firstn k (mapi (fun i v => (start_of wd i, i, v)) xs)) = Ok s /\
+        GPre ltb xs wd k s.
+Proof. intros A NA T DT ltb DL scmp H w mp xs k. apply g_ext_cache_invariant; assumption. Qed.
+
+(* ... and the expiry test (no law needed: arithmetic on the cached index) *)
+Theorem C03_cache_fresh_or_stale_ordered :
+  forall (A T : Type) (DT : IsNone T A) (ltb : A -> A -> bool) (xs : list T) (wd k : nat) (s : ext),
+    1 <= wd -> 0 < k -> GPre ltb xs wd k s ->
+    exists p, x_idx s = Some p /\ x_val s = gov xs p /\
+              ((wstart wd k <= p /\ glm ltb xs (wstart wd k) k p) \/
+               (p < wstart wd k /\ opt_lt (x_idx s) (start_of wd k) = true)).
+Proof. intros A T DT ltb xs wd k s. apply g_cache_fresh_or_stale. Qed.
+
+(* both directions instantiate the invariant *)
+Theorem C03_directions :
+  forall (A : Type) (NA : Num A), OrdLaws A -> DirLaws (nltb (A := A)) /\ DirLaws (ngtb (A := A)).
+Proof. intros A NA OL. exact (conj (dir_lt OL) (dir_gt OL)). Qed.
+
+(* rank: the recount loop counts the smaller and the equal valid elements, in the carrier's own < and == *)
+Theorem C03_rank_counts_ordered :
+  forall (A : Type) (NA : Num A), OrdLaws A ->
+  forall (T : Type) (DT : IsNone T A) (xs : list T), (forall v, In v xs -> okv (to_opt v)) ->
+  forall (x : A), num_ok x -> forall (cnt i : nat) (r : R) (nrep : nat),
+    i + cnt <= length xs ->
+    rank_loop (B := XR) xs x i cnt (Some r) nrep =
+    Ok (Some (r + INR (gcount_lt x (gvalid (seg i (i + cnt) (map to_opt xs)))))%R,
+        nrep + gcount_eq x (gvalid (seg i (i + cnt) (map to_opt xs)))).
+Proof. intros A NA OL T DT xs Hxs x Hx. exact (g_rank_loop_spec OL xs Hxs x Hx). Qed.
+
+Theorem C03_ts_vrank_ordered :
+  forall (A : Type) (NA : Num A), OrdLaws A ->
+  forall (T : Type) (DT : IsNone T A) (body : bool) (w : nat) (mp : option nat) (pct rev : bool)
+         (xs : list T),
+    valid_not_nan xs -> 1 <= w -> 1 <= length xs ->
+    exists out, ts_vrank (B := XR) body w mp pct rev xs = Done out /\ length out = length xs /\
+      forall i, i < length xs ->
+        nth_error out i =
+        Some (match nth_error (map to_opt xs) i with
+              | Some (Some x) =>
+                  let V' := gvalid (seg (wstart w i) i (map to_opt xs)) in
+                  if cmp_mp mp (cmp_window w xs) <=? S (length V') then Some (g_avg_rank pct rev x V')
+                  else None
+              | _ => None
+              end).
+Proof. intros A NA OL T DT. exact (ts_vrank_ord OL). Qed.
+
+Theorem C03_rank_rev_is_descending_ordered :
+  forall (A : Type) (NA : Num A) (x : A) (V' : list A),
+    OrdLaws A -> num_ok x -> Forall num_ok V' ->
+    g_avg_rank false true x V' = (1 + INR (gcount_gt x V') + INR (gcount_eq x V') / 2)%R.
+Proof. intros A NA. exact g_avg_rank_rev_gt. Qed.
+
+(* ---- instances ---------------------------------------------------------------------------------------- *)
+(* at Z the generic specification is the integer specification of Spec/Extrema.v ... *)
+Theorem C03_ordered_spec_at_Z :
+  (forall l : list (option Z), gvalid l = validZ l) /\
+  (forall l : list Z, gmin l = list_min l) /\ (forall l : list Z, gmax l = list_max l) /\
+  (forall (m : Z) W, glast_pos m W = last_pos m W) /\
+  (forall W : list (option Z), gargmin_spec W = argmin_spec W) /\
+  (forall W : list (option Z), gargmax_spec W = argmax_spec W) /\
+  (forall pct rev (x : Z) V', g_avg_rank pct rev x V' = avg_rank pct rev x V').
+Proof.
+  exact (conj gvalid_Z (conj gmin_Z (conj gmax_Z (conj glast_pos_Z (conj gargmin_spec_Z
+        (conj gargmax_spec_Z g_avg_rank_Z)))))).
+Qed.
+
+(* ... so the integer theorems (1), (2), (4) are corollaries of the ordered ones (same statements as C03_ts_vmin ...) *)
+Corollary C03_ts_vmin_integer_instance :
+  forall (T : Type) (DT : IsNone T Z) (body : bool) (w : nat) (mp : option nat) (xs : list T),
+    1 <= w -> 1 <= length xs ->
+    exists out, ts_vmin body w mp xs = Done out /\ length out = length xs /\
+      forall i, i < length xs ->
+        nth_error out i =
+        Some (let V := validZ (win w i (map to_opt xs)) in
+              if cmp_mp mp (cmp_window w xs) <=? length V then list_min V else None).
+Proof. intros T DT. exact ts_vmin_Z_from_ord. Qed.
+Corollary C03_ts_vmax_integer_instance :
+  forall (T : Type) (DT : IsNone T Z) (body : bool) (w : nat) (mp : option nat) (xs : list T),
+    1 <= w -> 1 <= length xs ->
+    exists out, ts_vmax body w mp xs = Done out /\ length out = length xs /\
+      forall i, i < length xs ->
+        nth_error out i =
+        Some (let V := validZ (win w i (map to_opt xs)) in
+              if cmp_mp mp (cmp_window w xs) <=? length V then list_max V else None).
+Proof. intros T DT. exact ts_vmax_Z_from_ord. Qed.
+Corollary C03_ts_vargmin_integer_instance :
+  forall (T : Type) (DT : IsNone T Z) (body : bool) (w : nat) (mp : option nat) (xs : list T),
+    1 <= w -> 1 <= length xs ->
+    exists out, ts_vargmin body w mp xs = Done out /\ length out = length xs /\
+      forall i, i < length xs ->
+        nth_error out i =
+        Some (let W := win w i (map to_opt xs) in
+              if cmp_mp mp (cmp_window w xs) <=? length (validZ W) then argmin_spec W else None).
+Proof. intros T DT. exact ts_vargmin_Z_from_ord. Qed.
+Corollary C03_ts_vargmax_integer_instance :
+  forall (T : Type) (DT : IsNone T Z) (body : bool) (w : nat) (mp : option nat) (xs : list T),
+    1 <= w -> 1 <= length xs ->
+    exists out, ts_vargmax body w mp xs = Done out /\ length out = length xs /\
+      forall i, i < length xs ->
+        nth_error out i =
+        Some (let W := win w i (map to_opt xs) in
+              if cmp_mp mp (cmp_window w xs) <=? length (validZ W) then argmax_spec W else None).
+Proof. intros T DT. exact ts_vargmax_Z_from_ord. Qed.
+Corollary C03_ts_vrank_integer_instance :
+  forall (T : Type) (DT : IsNone T Z) (body : bool) (w : nat) (mp : option nat) (pct rev : bool)
+         (xs : list T),
+    1 <= w -> 1 <= length xs ->
+    exists out, ts_vrank (B := XR) body w mp pct rev xs = Done out /\ length out = length xs /\
+      forall i, i < length xs ->
+        nth_error out i =
+        Some (match nth_error (map to_opt xs) i with
+              | Some (Some x) =>
+                  let V' := validZ (seg (wstart w i) i (map to_opt xs)) in
+                  if cmp_mp mp (cmp_window w xs) <=? S (length V') then Some (avg_rank pct rev x V')
+                  else None
+              | _ => None
+              end).
+Proof. intros T DT. exact ts_vrank_Z_from_ord. Qed.
+
+(* the real instance: series over option R with NaN = None as the null (the float-like dictionary: the premise
+   on the series is automatic), every window / min_periods / position / body *)
+Corollary C03_ts_vmin_vmax_real_instance :
+  forall (body : bool) (w : nat) (mp : option nat) (xs : list XR),
+    1 <= w -> 1 <= length xs ->
+    (exists out, ts_vmin (DT := IsNoneXR) body w mp xs = Done out /\ length out = length xs /\
+      forall i, i < length xs ->
+        nth_error out i =
+        Some (let V := gvalid (win w i (map to_opt xs)) in
+              if cmp_mp mp (cmp_window w xs) <=? length V then gmin V else None)) /\
+    (exists out, ts_vmax (DT := IsNoneXR) body w mp xs = Done out /\ length out = length xs /\
+      forall i, i < length xs ->
+        nth_error out i =
+        Some (let V := gvalid (win w i (map to_opt xs)) in
+              if cmp_mp mp (cmp_window w xs) <=? length V then gmax V else None)).
+Proof.
+  intros body w mp xs Hw Hlen. split.
+  - exact (ts_vmin_ord ordlaws_XR body w mp xs (valid_not_nan_floatlike xs) Hw Hlen).
+  - exact (ts_vmax_ord ordlaws_XR body w mp xs (valid_not_nan_floatlike xs) Hw Hlen).
+Qed.
+Corollary C03_ts_vargmin_vargmax_real_instance :
+  forall (body : bool) (w : nat) (mp : option nat) (xs : list XR),
+    1 <= w -> 1 <= length xs ->
+    (exists out, ts_vargmin (DT := IsNoneXR) body w mp xs = Done out /\ length out = length xs /\
+      forall i, i < length xs ->
+        nth_error out i =
+        Some (let W := win w i (map to_opt xs) in
+              if cmp_mp mp (cmp_window w xs) <=? length (gvalid W) then gargmin_spec W else None)) /\
+    (exists out, ts_vargmax (DT := IsNoneXR) body w mp xs = Done out /\ length out = length xs /\
+      forall i, i < length xs ->
+        nth_error out i =
+        Some (let W := win w i (map to_opt xs) in
+              if cmp_mp mp (cmp_window w xs) <=? length (gvalid W) then gargmax_spec W else None)).
+Proof.
+  intros body w mp xs Hw Hlen. split.
+  - exact (ts_vargmin_ord ordlaws_XR body w mp xs (valid_not_nan_floatlike xs) Hw Hlen).
+  - exact (ts_vargmax_ord ordlaws_XR body w mp xs (valid_not_nan_floatlike xs) Hw Hlen).
+Qed.
+Corollary C03_ts_vrank_real_instance :
+  forall (body : bool) (w : nat) (mp : option nat) (pct rev : bool) (xs : list XR),
+    1 <= w -> 1 <= length xs ->
+    exists out, ts_vrank (DT := IsNoneXR) (B := XR) body w mp pct rev xs = Done out /\ length out = length xs /\
+      forall i, i < length xs ->
+        nth_error out i =
+        Some (match nth_error (map to_opt xs) i with
+              | Some (Some x) =>
+                  let V' := gvalid (seg (wstart w i) i (map to_opt xs)) in
+                  if cmp_mp mp (cmp_window w xs) <=? S (length V') then Some (g_avg_rank pct rev x V')
+                  else None
+              | _ => None
+              end).
+Proof.
+  intros body w mp pct rev xs Hw Hlen.
+  exact (ts_vrank_ord ordlaws_XR body w mp pct rev xs (valid_not_nan_floatlike xs) Hw Hlen).
+Qed.
+
+(* at option R the generic extremes are the least / greatest real of the list *)
+Theorem C03_extreme_real_meaning :
+  forall (V : list XR) (m : R), Forall num_ok V ->
+    (gmin V = Some (Some m) <-> In (Some m) V /\ forall r, In (Some r) V -> (m <= r)%R) /\
+    (gmax V = Some (Some m) <-> In (Some m) V /\ forall r, In (Some r) V -> (r <= m)%R).
+Proof. intros V m H. exact (conj (gmin_XR V m H) (gmax_XR V m H)). Qed.
+
+(* ---- non-vacuity of the ordered theorems ---------------------------------------------------------- *)
+(* premise `OrdLaws A`: C03_order_laws_Z, C03_order_laws_real.  Premise `valid_not_nan xs`: *)
+Example C03_example_valid_not_nan_int : valid_not_nan (DT := Dopt) [Some 1%Z; None; Some 3%Z].
+Proof. exact (valid_not_nan_Z _). Qed.
+Example C03_example_valid_not_nan_real : valid_not_nan (DT := IsNoneXR) [Some 1%R; None; Some 3%R].
+Proof. exact (valid_not_nan_floatlike _). Qed.
+(* Option<f64>-like dictionary over option R: Some (Some r) valid, None null; Some None (= Some(NaN)) is what the
+   premise excludes *)
+Example C03_example_valid_not_nan_optreal :
+  valid_not_nan (DT := IsNone_option (A := XR)) [Some (Some 1%R); None; Some (Some 3%R)].
+Proof. intros v [<-|[<-|[<-|[]]]] H; try discriminate; reflexivity. Qed.
+(* premises okv / num_ok / Forall num_ok *)
+Example C03_example_okv : okv (Some 2%Z) /\ okv (@None Z) /\ num_ok (Some 1%R) /\ Forall num_ok [Some 1%R; Some 2%R].
+Proof. repeat split; repeat constructor. Qed.
+(* premise of the ordered invariant: sort_cmp is the null-last order of `<` (at Z, by C03_sort_cmp_nulls_last_ordered) *)
+Example C03_example_invariant_premise_ordered :
+  forall a b : option Z, okv a -> okv b -> sort_cmp a b = gocmp nltb a b.
+Proof. exact (sort_cmp_ord ordlaws_Z). Qed.
+(* the generic specification evaluated on the tie / null / expiry / all-null example above *)
+Example C03_example_gargmin_spec :
+  map (fun i => gargmin_spec (win 2 i [Some 1%Z; Some 1%Z; None; None; Some 3%Z; Some 2%Z])) (seq 0 6) =
+  [Some 1; Some 2; Some 1; None; Some 2; Some 2].
+Proof. vm_compute. reflexivity. Qed.
+Example C03_example_gargmin_meaning_premise :
+  gargmin_spec [Some 1%Z; Some 1%Z] = Some 2.
+Proof. vm_compute. reflexivity. Qed.
+Example C03_example_GPre : GPre (T := option Z) (DT := Dopt) nltb [Some 1%Z] 1 0 ext0.
+Proof. apply GPre_init. apply le_n. Qed.
+
+
 Print Assumptions C03_sort_cmp_nulls_last.
 Print Assumptions C03_ts_vmin.
 Print Assumptions C03_ts_vmax.
@@ -214,3 +538,28 @@ Print Assumptions C03_rank_rev_is_descending.
 Print Assumptions C03_ts_vzscore.
 Print Assumptions C03_ts_vminmaxnorm.
 Print Assumptions C03_lmaxR_lminR_meaning.
+Print Assumptions C03_order_laws_Z.
+Print Assumptions C03_order_laws_real.
+Print Assumptions C03_sort_cmp_nulls_last_ordered.
+Print Assumptions C03_ts_vmin_ordered.
+Print Assumptions C03_ts_vmax_ordered.
+Print Assumptions C03_ts_vargmin_ordered.
+Print Assumptions C03_ts_vargmax_ordered.
+Print Assumptions C03_extreme_meaning.
+Print Assumptions C03_gargmin_spec_meaning.
+Print Assumptions C03_cached_extreme_invariant_ordered.
+Print Assumptions C03_cache_fresh_or_stale_ordered.
+Print Assumptions C03_directions.
+Print Assumptions C03_rank_counts_ordered.
+Print Assumptions C03_ts_vrank_ordered.
+Print Assumptions C03_rank_rev_is_descending_ordered.
+Print Assumptions C03_ordered_spec_at_Z.
+Print Assumptions C03_ts_vmin_integer_instance.
+Print Assumptions C03_ts_vmax_integer_instance.
+Print Assumptions C03_ts_vargmin_integer_instance.
+Print Assumptions C03_ts_vargmax_integer_instance.
+Print Assumptions C03_ts_vrank_integer_instance.
+Print Assumptions C03_ts_vmin_vmax_real_instance.
+Print Assumptions C03_ts_vargmin_vargmax_real_instance.
+Print Assumptions C03_ts_vrank_real_instance.
+Print Assumptions C03_extreme_real_meaning.
